@@ -83,33 +83,48 @@ Definition setr (s : state) (r : reg) (v : Z) : state :=
   mkst (upd reg_eqb (rg s) r v) (cf s) (zf s) (ma s) (mb s) (tr s).
 Definition b2z (b : bool) : Z := if b then 1 else 0.
 
+(** Data arithmetic goes through named wrappers so that symbolic execution can unfold the
+    control structure without unfolding the arithmetic. *)
+Definition addr (i off : Z) : Z := i + off.
+Definition updm (f : Z -> Z) (k v : Z) : Z -> Z := fun j => if j =? k then v else f j.
+Definition wrap (t : Z) : Z := t mod B.
+Definition is_zero (t : Z) : bool := t =? 0.
+Definition carry_out (t : Z) : bool := B <=? t.
+Definition borrow_out (t : Z) : bool := t <? 0.
+Definition add3 (a b : Z) (c : bool) : Z := a + b + b2z c.
+Definition sub3 (a b : Z) (c : bool) : Z := a - b - b2z c.
+Definition succ_w (a : Z) : Z := (a + 1) mod B.
+Definition pred_w (a : Z) : Z := (a - 1) mod B.
+
 (** One non-jump instruction. [Label]/[Jnz]/[Unknown] are no-ops here; control flow is
     handled by [run]. *)
 Definition step (i : instr) (s : state) : state :=
   match i with
   | Clc => mkst (rg s) false (zf s) (ma s) (mb s) (tr s)
-  | Load r m off =>
-      let a := rg s Ridx + off in
-      let v := match m with MA => ma s a | MB => mb s a end in
-      mkst (upd reg_eqb (rg s) r v) (cf s) (zf s) (ma s) (mb s) (Rd m a :: tr s)
-  | Store m off r =>
-      let a := rg s Ridx + off in
-      match m with
-      | MA => mkst (rg s) (cf s) (zf s) (upd Z.eqb (ma s) a (rg s r)) (mb s) (Wr m a :: tr s)
-      | MB => mkst (rg s) (cf s) (zf s) (ma s) (upd Z.eqb (mb s) a (rg s r)) (Wr m a :: tr s)
-      end
+  | Load r MA off =>
+      mkst (upd reg_eqb (rg s) r (ma s (addr (rg s Ridx) off))) (cf s) (zf s) (ma s) (mb s)
+           (Rd MA (addr (rg s Ridx) off) :: tr s)
+  | Load r MB off =>
+      mkst (upd reg_eqb (rg s) r (mb s (addr (rg s Ridx) off))) (cf s) (zf s) (ma s) (mb s)
+           (Rd MB (addr (rg s Ridx) off) :: tr s)
+  | Store MA off r =>
+      mkst (rg s) (cf s) (zf s) (updm (ma s) (addr (rg s Ridx) off) (rg s r)) (mb s)
+           (Wr MA (addr (rg s Ridx) off) :: tr s)
+  | Store MB off r =>
+      mkst (rg s) (cf s) (zf s) (ma s) (updm (mb s) (addr (rg s Ridx) off) (rg s r))
+           (Wr MB (addr (rg s Ridx) off) :: tr s)
   | Adc d r =>
-      let t := rg s d + rg s r + b2z (cf s) in
-      mkst (upd reg_eqb (rg s) d (t mod B)) (B <=? t) (t mod B =? 0) (ma s) (mb s) (tr s)
+      mkst (upd reg_eqb (rg s) d (wrap (add3 (rg s d) (rg s r) (cf s))))
+           (carry_out (add3 (rg s d) (rg s r) (cf s)))
+           (is_zero (wrap (add3 (rg s d) (rg s r) (cf s)))) (ma s) (mb s) (tr s)
   | Sbb d r =>
-      let t := rg s d - rg s r - b2z (cf s) in
-      mkst (upd reg_eqb (rg s) d (t mod B)) (t <? 0) (t mod B =? 0) (ma s) (mb s) (tr s)
+      mkst (upd reg_eqb (rg s) d (wrap (sub3 (rg s d) (rg s r) (cf s))))
+           (borrow_out (sub3 (rg s d) (rg s r) (cf s)))
+           (is_zero (wrap (sub3 (rg s d) (rg s r) (cf s)))) (ma s) (mb s) (tr s)
   | Inc r =>
-      let t := (rg s r + 1) mod B in
-      mkst (upd reg_eqb (rg s) r t) (cf s) (t =? 0) (ma s) (mb s) (tr s)
+      mkst (upd reg_eqb (rg s) r (succ_w (rg s r))) (cf s) (is_zero (succ_w (rg s r))) (ma s) (mb s) (tr s)
   | Dec r =>
-      let t := (rg s r - 1) mod B in
-      mkst (upd reg_eqb (rg s) r t) (cf s) (t =? 0) (ma s) (mb s) (tr s)
+      mkst (upd reg_eqb (rg s) r (pred_w (rg s r))) (cf s) (is_zero (pred_w (rg s r))) (ma s) (mb s) (tr s)
   | Setc r => setr s r (b2z (cf s))
   | Label _ | Jnz _ | Unknown _ => s
   end.
